@@ -91,7 +91,7 @@ def directed(rng):
 
 FAMILY = {
   'C04': (['cli_c04q'], ['cli_c04q', 'cli_c04'], ['cli_c04', 'cli_c04q', 'cli_c05m'], 40),
-  'C05': (['cli_c05u'], ['cli_c05u', 'cli_c05m', 'cli_c05'], ['cli_c05', 'cli_c05u', 'cli_c05m'], 40),
+  'C05': (['cli_c05u'], ['cli_c05u', 'cli_c05m', 'cli_c05', 'cli_live'], ['cli_c05', 'cli_c05u', 'cli_c05m'], 40),
 }
 
 def gen_scenarios(prop, tier, seed, nsim):
@@ -136,17 +136,7 @@ def run_check(prop, tier, seed, replay=None):
             raise C.ToolError('; '.join(info['tool_trouble']))
         accepted, rej = C.validate_traces(traces, 'ClientContract', {prop}, TMPL, work)
         byname = {s['name']: s for s in scs}
-        violations = []
-        for r in rej[:4]:
-            name = r['trace'][0]['scn']; sc = byname.get(name)
-            w2 = os.path.join(work, 're_' + re.sub(r'\W', '_', name)); os.makedirs(w2, exist_ok=True)
-            tr2, _ = C.run_scenarios(binp, [sc], w2, nworkers=1)
-            _, rej2 = C.validate_traces(tr2, 'ClientContract', {prop}, TMPL, w2)
-            if rej2:
-                path = C.save_replay(prop, name, dict(property=prop, scenario=sc, rejected_at=rej2[0]['at'], event=rej2[0]['event'], trace=rej2[0]['trace']))
-                violations.append((name, path, rej2[0]))
-            else:
-                raise C.ToolError('rejection of %s did not reproduce' % name)
+        violations, anomalies = C.confirm_rejections(prop, rej, lambda n: byname[n], lambda sc, w: C.run_scenarios(binp, [sc], w, nworkers=1)[0], 'ClientContract', TMPL, work)
         cov = dict(states=sum(d['states'] for d in design) or 1, transitions=sum(d['transitions'] for d in design) or 1, design_runs=design,
                    traces_validated_against_impl=accepted + len(rej), scenarios=len(scs), evaluations=len(traces),
                    distinct_nontrivial=len({signature(t) for t in traces}),
